@@ -2787,6 +2787,17 @@ func (p *Posix) PutObject(ctx context.Context, po s3response.PutObjectInput) (s3
 			// directory object
 			return s3response.PutObjectOutput{}, s3err.GetAPIError(s3err.ErrDirectoryObjectContainsData)
 		}
+		// the request signature is verified when the body reader reports
+		// EOF: read the (empty) body before acting
+		if po.Body != nil {
+			n, err := io.Copy(io.Discard, po.Body)
+			if err != nil {
+				return s3response.PutObjectOutput{}, err
+			}
+			if n != 0 {
+				return s3response.PutObjectOutput{}, s3err.GetAPIError(s3err.ErrDirectoryObjectContainsData)
+			}
+		}
 
 		err = backend.MkdirAll(name, uid, gid, doChown, p.newDirPerm)
 		if err != nil {
@@ -2838,23 +2849,7 @@ func (p *Posix) PutObject(ctx context.Context, po s3response.PutObjectInput) (s3
 		return s3response.PutObjectOutput{}, s3err.GetAPIError(s3err.ErrExistingObjectIsDirectory)
 	}
 
-	// if the versioninng is enabled first create the file object version
-	if p.versioningEnabled() && vStatus != "" && err == nil {
-		var isVersionIdMissing bool
-		if p.isBucketVersioningSuspended(vStatus) {
-			vIdBytes, err := p.meta.RetrieveAttribute(nil, *po.Bucket, *po.Key, versionIdKey)
-			if err != nil && !errors.Is(err, meta.ErrNoSuchKey) {
-				return s3response.PutObjectOutput{}, fmt.Errorf("get object versionId: %w", err)
-			}
-			isVersionIdMissing = len(vIdBytes) == 0
-		}
-		if !isVersionIdMissing {
-			_, err := p.createObjVersion(*po.Bucket, *po.Key, d.Size(), acct)
-			if err != nil {
-				return s3response.PutObjectOutput{}, fmt.Errorf("create object version: %w", err)
-			}
-		}
-	}
+	nameExists := err == nil
 	if errors.Is(err, syscall.ENAMETOOLONG) {
 		return s3response.PutObjectOutput{}, s3err.GetAPIError(s3err.ErrKeyTooLong)
 	}
@@ -2924,6 +2919,26 @@ func (p *Posix) PutObject(ctx context.Context, po s3response.PutObjectInput) (s3
 		return s3response.PutObjectOutput{}, errIncompleteBody
 	}
 	verifhook.At("put.body_done", "path", name)
+
+	// if the versioning is enabled create the file object version, but only
+	// after the body has been read: the request signature is verified when
+	// the body reader reports EOF
+	if p.versioningEnabled() && vStatus != "" && nameExists {
+		var isVersionIdMissing bool
+		if p.isBucketVersioningSuspended(vStatus) {
+			vIdBytes, err := p.meta.RetrieveAttribute(nil, *po.Bucket, *po.Key, versionIdKey)
+			if err != nil && !errors.Is(err, meta.ErrNoSuchKey) {
+				return s3response.PutObjectOutput{}, fmt.Errorf("get object versionId: %w", err)
+			}
+			isVersionIdMissing = len(vIdBytes) == 0
+		}
+		if !isVersionIdMissing {
+			_, err := p.createObjVersion(*po.Bucket, *po.Key, d.Size(), acct)
+			if err != nil {
+				return s3response.PutObjectOutput{}, fmt.Errorf("create object version: %w", err)
+			}
+		}
+	}
 
 	dir := filepath.Dir(name)
 	if dir != "" {
